@@ -8,8 +8,8 @@ META = {
             "chosen time; one generation run per fault point (plus runs with 2-3 simultaneous faults). After every run generation must have "
             "returned normally and the whole library must satisfy the C03 predicate (every function matched to one recorded unique, recorded "
             "parameter map exact numerically, 'nan' only with fewer parameters, uniques distinct and gap-free). Quick: every fault point (all "
-            "visits of all executed lines) of the basis {x, a, -} at complexity 3, the first visit of every executed line of core_maths 3, "
-            "every line that core_maths 4 adds and a sample of the others on core_maths 4 / ext_maths 3. Thorough: every fault point of "
+            "visits of all executed lines) of the basis {x, a, -} at complexity 3, the first visit of every executed line of core_maths 3 and "
+            "core_maths 4, a sample of first visits on ext_maths 3. Thorough: every fault point of "
             "core_maths 3, first three + middle + last visit of every line on core_maths 4 and ext_maths 3, sampled visits on ext_maths 4, and "
             "the lines reached only by keep_duplicates 3 / core_maths 5. Interruption points are statement boundaries of the region bodies "
             "(each statement has at most one side effect, at its end); single faults exhaustively on the smallest library only.",
@@ -26,17 +26,17 @@ TINY = [["x", "a"], [], ["-"]]
 def jobs_for(tier):
     if tier == "quick":
         return [
-            {"runname": "verif_c15tiny", "n": 3, "basis": TINY, "select": {"exhaustive": True}},
             {"runname": "core_maths", "n": 3, "select": {"K": 1, "multi": 4}},
-            {"runname": "core_maths", "n": 4, "select": {"K": 1, "sample_old": 28, "multi": 2}},
+            {"runname": "core_maths", "n": 4, "select": {"K": 1, "multi": 2}},
             {"runname": "ext_maths", "n": 3, "select": {"K": 1, "sample_old": 36, "multi": 2}},
+            {"runname": "verif_c15tiny", "n": 3, "basis": TINY, "select": {"exhaustive": True}},
         ]
     return [
         {"runname": "core_maths", "n": 3, "select": {"exhaustive": True, "multi": 10}},
         {"runname": "core_maths", "n": 4, "select": {"K": 3, "spread": True, "multi": 10}},
         {"runname": "ext_maths", "n": 3, "select": {"K": 3, "spread": True, "multi": 6}},
         {"runname": "keep_duplicates", "n": 3, "select": {"K": 3, "spread": True, "only_new_lines": True}},
-        {"runname": "ext_maths", "n": 4, "select": {"K": 1, "spread": True, "sample": 150}},
+        {"runname": "ext_maths", "n": 4, "select": {"K": 1, "spread": True, "sample": 120}},
         {"runname": "core_maths", "n": 5, "select": {"K": 1, "spread_n": 4, "only_new_lines": True}},
     ]
 
@@ -69,15 +69,21 @@ def check(run):
                         "simplifier.sympy_simplify / expand_or_factor / check_results under duplicate_checker.main",
                         "%s complexity %d (%s functions): %s" % (job["runname"], job["n"], info.get("n_functions"), how),
                         info.get("cases", 0), info.get("distinct", 0), info.get("failing_runs", 0))
-    for f in fails:
+    reported_lines = set()
+    for f in fails:          # in job order; one violation per line (first library, lowest failing visit)
         specs = f["specs"]
         if len(specs) > 1 and any((f["runname"], f["n"], l) in single_bad for l, _ in specs):
             continue        # already reported as a single fault of the same library
-        run.violation(spec_key(f["runname"], f["n"], specs), f["error"][:1500],
+        lines = tuple(l for l, _ in specs)
+        if lines in reported_lines:
+            continue
+        reported_lines.add(lines)
+        run.violation(spec_key(f["runname"], f["n"], specs), "%s complexity %d: %s" % (f["runname"], f["n"], f["error"][:1500]),
                       {"harness": "rt_c15.py", "fresh_copy": True, "timeout": 1800,
                        "payload": {"mode": "inject", "runname": f["runname"], "n": f["n"], "basis": f.get("basis"), "specs": specs}})
     if fails:
-        run.notes.append("%d injection runs failed in total; one violation per (library, line) with the lowest failing visit" % r.get("failing_runs", 0))
+        run.notes.append("%d injection runs failed in total; one violation per line (first library in job order, lowest failing visit); failing (library, line) pairs: %s" % (
+            r.get("failing_runs", 0), sorted(set("%s/%d:%s" % (f["runname"], f["n"], "+".join(l for l, _ in f["specs"])) for f in fails))))
     run.sample("fault point = (line of simplifier.py inside a `with time_limit` body, k-th time the line is reached in the run); e.g. %s" % (
         "; ".join("%s/%d: %d points on %d lines" % (i["runname"], i["n"], i["fault_points"], i["lines_executed"]) for i in r["jobs"])))
     run.assume("A-hash", "A-trace: a TimeoutException raised by a trace function at a line event is handled like one raised by the SIGALRM handler "
